@@ -643,6 +643,29 @@ func gen(seed uint64, tier string) {
 		fmt.Fprintf(out, "copy %s\nempty %s\nempty %s\nself %s\nself %s\n", A, A, B, A, B)
 	}
 	fmt.Fprintf(out, "ext %s NIL\n", boxToks(&geom.Bounds{Min: P(nanv(), 0), Max: P(1, 1)}))
+	for i := 0; i < nBox/40; i++ {
+		a, _ := nanSides(genBox(r), 4)
+		b, _ := nanSides(genBox(r), 4)
+		a.Min.X = nanv()
+		fmt.Fprintf(out, "self3 %s %s\nself3 %s %s\n", boxToks(a), boxToks(b), boxToks(b), boxToks(a))
+	}
+	// fcmp: the reading of float64 the whole model rests on (value order by sign-magnitude key, -0 = +0, NaN unordered;
+	// math.Min/Max with their special cases), exercised against Go's own operators on every run
+	special := append(catVals(), math.Float64frombits(1), -math.Float64frombits(1), 0x1p-1022, -0x1p-1022,
+		math.Nextafter(1, 2), math.Nextafter(1, 0), math.Float64frombits(nans[0]), math.Float64frombits(nans[1]),
+		math.Float64frombits(nans[3]), math.Float64frombits(0x7ff0000000000001) /* signalling */)
+	for _, x := range special {
+		for _, y := range special {
+			fmt.Fprintf(out, "fcmp %s %s\n", vproto.F2H(x), vproto.F2H(y))
+		}
+	}
+	for i := 0; i < nBox/8; i++ {
+		x, y := coord(r), coord(r)
+		if i%7 == 0 {
+			y = math.Float64frombits(math.Float64bits(x) ^ uint64(1)<<uint(r.Intn(64))) // one bit apart
+		}
+		fmt.Fprintf(out, "fcmp %s %s\n", vproto.F2H(x), vproto.F2H(y))
+	}
 }
 
 // ---------------------------------------------------------------- implementation runner
@@ -1120,6 +1143,9 @@ func runLine(line string) (res string) {
 		case "empty":
 			a := parseBox(p)
 			res = fmt.Sprintf("%v", a.Empty())
+		case "fcmp":
+			x, y := p.F(), p.F()
+			res = fmt.Sprintf("%v %v %v %s %s", x < y, x <= y, x == y, vproto.F2H(math.Min(x, y)), vproto.F2H(math.Max(x, y)))
 		default:
 			res = "badline"
 		}
